@@ -18,6 +18,7 @@ def parseSlice (s : String) : Option SliceI :=
   | ["I", a] => a.toInt?.map SliceI.idx
   | ["R", a, b] => do let a ← a.toInt?; let b ← b.toInt?; pure (SliceI.range a b)
   | ["S", a, b, c] => do let a ← a.toInt?; let b ← b.toInt?; let c ← c.toInt?; pure (SliceI.strided a b c)
+  | ["Q", a, b, c] => do let a ← a.toInt?; let b ← b.toInt?; let c ← c.toInt?; pure (SliceI.strided a b c)
   | _ => none
 
 def SliceI.wrapT (T : ITy) : SliceI → SliceI
